@@ -27,6 +27,8 @@ chain(pool, ...)       straight-line list of blocks b0 -> b1 -> ... (uncondition
                        one leaving the graph (ExprLoc without block, ExprCond of two such, register, int).
 counted_loop(pool,...) head: counter := const (1..4); body: ...; counter := counter - 1;
                        IRDst := counter ? body : exit   -- control flow an engine resolves concretely.
+memcopy_program(pool)  memory traffic over small windows of 2..3 symbolic bases: piecewise memory-to-memory copies,
+                       copies through a register, partial overwrites, loads at arbitrary byte offsets.
 
 Location keys are small integers i (rendered as LocKey(i) in a fresh LocationDB, see `build_ircfg`);
 by convention the blocks of a graph are 0..n-1 and keys >= n are exits without block.
@@ -351,6 +353,122 @@ def counted_loop(draw, pool, depth=1, mem=True):
     b2.append([(pool.irdst, draw(dst_expr(pool, exits=[3, 4])))])
     return {"blocks": [{"loc": 0, "assignblks": b0}, {"loc": 1, "assignblks": body}, {"loc": 2, "assignblks": b2}],
             "head": 0, "nlocs": 5}
+
+
+MEMCOPY_ORIGINS = [0, 0, 0x10, 0x100, 0x7f8, -8, -3, -0x20]
+PIECES = [1, 1, 2, 2, 4, 4, 8]
+
+
+@st.composite
+def memcopy_program(draw, pool, nblocks=(1, 2)):
+    """Memory traffic over small windows of two or three symbolic bases (pointer registers that are never
+    assigned): memory-to-memory copies done in several pieces (sizes 1/2/4/8 bytes, in any order, one
+    AssignBlock each or all in one), copies through a register, stores of constants / registers that
+    partially overwrite what was copied, loads at arbitrary byte offsets (overlapping several stored
+    pieces), then final loads of the windows into registers.  Offsets are `origin + k`, origin a
+    (possibly negative, i.e. wrapping) constant per base, k in a window of ~24 bytes, biased towards the
+    boundaries of earlier accesses +-3.
+    -> graph (raw form) of 1..2 blocks; block i jumps to block i+1, the last one to an exit."""
+    m = _m()
+    n = pool.addrsize
+    amask = (1 << n) - 1
+    sz = pool.irdst.size
+    nb = draw(st.integers(2, 3))
+    idx = draw(st.lists(st.integers(0, len(pool.ptr_regs) - 1), min_size=nb, max_size=nb, unique=True))
+    bases = [pool.ptr_regs[i] for i in idx]
+    origin = [draw(st.sampled_from(MEMCOPY_ORIGINS)) for _ in bases]
+    marks = [[0] for _ in bases]                  # interesting window offsets per base
+    data_regs = [r for r in pool.all_regs() if r not in bases and r.size >= 8 and r.size % 8 == 0]
+    WIN = 24
+
+    def ptr(b, k):
+        c = (origin[b] + k) & amask
+        return m.ExprOp('+', bases[b], m.ExprInt(c, n)) if c else bases[b]
+
+    def mem(b, k, nbytes):
+        marks[b] += [k, k + nbytes]
+        return m.ExprMem(ptr(b, k), nbytes * 8)
+
+    def off(b, nbytes=1):
+        if draw(st.integers(0, 2)):
+            k = draw(st.sampled_from(marks[b])) + draw(st.integers(-3, 3))
+        else:
+            k = draw(st.integers(0, WIN))
+        return max(0, min(WIN, k))
+
+    def base(other_than=None):
+        cands = [i for i in range(len(bases)) if i != other_than]
+        return draw(st.sampled_from(cands))
+
+    def load_pair(b, k, nbytes, r):
+        """r := the nbytes at (b, k): extended / sliced to the register's width"""
+        x = mem(b, k, nbytes)
+        if x.size == r.size:
+            return (r, x)
+        if x.size < r.size:
+            return (r, m.ExprOp("zeroExt_%d" % r.size, x))
+        start = 8 * draw(st.integers(0, (x.size - r.size) // 8))
+        return (r, m.ExprSlice(x, start, start + r.size))
+
+    def value(nbytes):
+        w = nbytes * 8
+        k = draw(st.integers(0, 3))
+        if k == 0:
+            return m.ExprInt(draw(exprgen.const_values(w)), w)
+        return draw(simple_src(pool_nobase, w, mem=False))
+
+    pool_nobase = RegPoolView(pool, exclude=[b.name for b in bases])
+    if not pool_nobase.sizes:
+        pool_nobase = pool
+    abs_ = []
+    for _ in range(draw(st.integers(2, 6))):
+        kind = draw(st.sampled_from(["pieces", "pieces", "store", "store", "load", "via-reg"]))
+        if kind == "pieces":
+            d = base()
+            s = d if draw(st.integers(0, 4)) == 0 else base(other_than=d)
+            sizes = draw(st.lists(st.sampled_from(PIECES), min_size=1, max_size=4))
+            kd, ks = off(d), off(s)
+            group = []
+            pos = 0
+            for nbytes in sizes:
+                group.append((mem(d, kd + pos, nbytes), mem(s, ks + pos, nbytes)))
+                pos += nbytes
+            group = draw(st.permutations(group))
+            if draw(st.integers(0, 3)) == 0:
+                abs_.append(list(group))                # one parallel AssignBlock (destinations are disjoint)
+            else:
+                abs_ += [[p] for p in group]
+        elif kind == "store":
+            d = base()
+            nbytes = draw(st.sampled_from(PIECES))
+            abs_.append([(mem(d, off(d), nbytes), value(nbytes))])
+        elif kind == "load" and data_regs:
+            b = base()
+            abs_.append([load_pair(b, off(b), draw(st.sampled_from(PIECES)), draw(st.sampled_from(data_regs)))])
+        elif data_regs:
+            s = base()
+            d = base()
+            nbytes = draw(st.sampled_from(PIECES))
+            r = draw(st.sampled_from(data_regs))
+            nb_st = min(nbytes, r.size // 8)
+            abs_.append([load_pair(s, off(s), nbytes, r)])
+            src = r if r.size == nb_st * 8 else m.ExprSlice(r, 0, nb_st * 8)
+            abs_.append([(mem(d, off(d), nb_st), src)])
+    # final loads: distinct registers, any byte offset of the windows
+    regs = list(draw(st.permutations(data_regs)))[:draw(st.integers(2, 4))]
+    for r in regs:
+        b = base()
+        abs_.append([load_pair(b, off(b), draw(st.sampled_from(PIECES[2:])), r)])
+    nblk = min(draw(st.integers(*nblocks)), len(abs_))
+    cuts = sorted(draw(st.lists(st.integers(1, len(abs_) - 1), min_size=nblk - 1, max_size=nblk - 1, unique=True))) \
+        if nblk > 1 else []
+    bounds = [0] + cuts + [len(abs_)]
+    blocks = []
+    for i in range(nblk):
+        part = abs_[bounds[i]:bounds[i + 1]]
+        part.append([(pool.irdst, loc(i + 1, sz))])
+        blocks.append({"loc": i, "assignblks": part})
+    return {"blocks": blocks, "head": 0, "nlocs": nblk + 1}
 
 
 class RegPoolView(RegPool):
